@@ -31,6 +31,7 @@ func init() {
 			{Name: "image-error-no-cleanup", File: "artifact/image/layerscanning/image/image.go", Old: "		if err != nil {\n			return handleImageError(outputImage, err)\n		}\n		v1LayerIndex--", New: "		if err != nil {\n			return nil, err\n		}\n		v1LayerIndex--", Rule: "D6-image-tempdir", Site: "FromV1Image"},
 			{Name: "image-zipslip-test-dropped", File: "artifact/image/layerscanning/image/image.go", Old: "		if strings.HasPrefix(cleanedFilePath, \"../\") {\n			continue\n		}\n", New: "", Rule: "D6-image-paths", Site: "fillChainLayersWithFilesFromTar"},
 			{Name: "link-target-fast-path", File: "artifact/image/symlink/symlink.go", Old: "	markerDir := uuid.New().String()\n", New: "	if !strings.HasPrefix(filepath.ToSlash(target), \"../\") && !strings.HasPrefix(filepath.ToSlash(target), \"/../\") {\n		return false\n	}\n	markerDir := uuid.New().String()\n", Rule: "D7-link-targets", Site: "TargetOutsideRoot"},
+			{Name: "hard-link-name-re-rooted", File: "artifact/image/unpack/unpack.go", Old: "			if filepath.IsAbs(targetPath) {\n				targetPath = filepath.Join(dir, target)", New: "			if filepath.IsAbs(targetPath) || header.Typeflag == tar.TypeLink {\n				targetPath = filepath.Join(dir, target)", Rule: "D8-link-interpretation", Site: "unpack"},
 		},
 		Neutral: c06Neutral,
 	})
@@ -108,6 +109,8 @@ func runC06(p *Prog, r *Report) {
 	c06Unpack(p, r)
 	c06Image(p, r)
 	r.Rule("D7-link-targets", "the link-target check examines the joined, cleaned path on every path")
+	r.Rule("D8-link-interpretation", "a link name is re-rooted under the target directory exactly when it is absolute")
+	c06LinkInterpretation(p, r)
 	targetOutsideRootBody(p, r, "D7-link-targets")
 }
 
@@ -721,4 +724,53 @@ func c06Image(p *Prog, r *Report) {
 	}
 	_ = sort.Strings
 	_ = strings.Join
+}
+
+// c06LinkInterpretation: symlink.TargetOutsideRoot(path, name) reads an absolute name as relative to
+// the image root and a relative name as relative to the link's directory. unpack must create the link
+// under the same reading: Join(dir, name) only on the filepath.IsAbs(name) edge, the bare name
+// otherwise. Re-rooting a relative name (e.g. for hard links) after it was checked relative to the
+// link's directory lets a name with leading ".." segments point above the target directory.
+func c06LinkInterpretation(p *Prog, r *Report) {
+	up := p.Func("artifact/image/unpack", "unpack")
+	if up == nil {
+		return
+	}
+	var tor *ssa.Call
+	forEachInstr(up, func(_ *ssa.BasicBlock, _ int, in ssa.Instruction) {
+		if c, ok := in.(*ssa.Call); ok && refOf(c.Common()).is(fp("artifact/image/symlink"), "", "TargetOutsideRoot") {
+			tor = c
+		}
+	})
+	if tor == nil {
+		r.Fail("D8-link-interpretation", "unpack.unpack:check", p.Pos(up.Pos()), "unpack no longer checks link names with symlink.TargetOutsideRoot")
+		return
+	}
+	name := tor.Call.Args[1]
+	isAbs := func(c ssa.Value) (bool, bool) {
+		call, ok := c.(*ssa.Call)
+		if ok && refOf(call.Common()).is("path/filepath", "", "IsAbs") && (call.Call.Args[0] == name || renderValueDeep(call.Call.Args[0]) == renderValueDeep(name)) {
+			return true, true
+		}
+		return false, false
+	}
+	holds, _ := guardEdges(up, isAbs)
+	n := 0
+	forEachInstr(up, func(b *ssa.BasicBlock, _ int, in ssa.Instruction) {
+		c, ok := in.(*ssa.Call)
+		if !ok || !refOf(c.Common()).is("path/filepath", "", "Join") {
+			return
+		}
+		args := flattenVariadic(c.Call.Args)
+		if len(args) != 2 || args[0] != ssa.Value(up.Params[0]) {
+			return
+		}
+		if args[1] != name && renderValueDeep(args[1]) != renderValueDeep(name) {
+			return
+		}
+		n++
+		ok2 := len(holds) > 0 && !reachable(tor.Block(), edgesOf(holds), nil)[b]
+		r.Check(ok2, "D8-link-interpretation", "unpack.unpack:re-root", p.Pos(c.Pos()), "Join(dir, name) only when the name is absolute", "a link name is re-rooted under the target directory although it is not absolute: TargetOutsideRoot judged it relative to the link's own directory, so a relative name with as many '..' segments as the link is deep passes the check and, re-rooted, points above the target directory")
+	})
+	r.Instances("D8-link-interpretation", "re-rooting of link names in unpack", n, 1)
 }
